@@ -351,6 +351,7 @@ func (c *Server) RunListener(listener net.Listener) error {
 			br.Reset(conn)
 			if r, err := http.ReadRequest(br); err != nil {
 				c.OnError(conn, err)
+				_ = conn.Close()
 			} else {
 				c.OnRequest(conn, br, r)
 			}
